@@ -6,6 +6,7 @@ package main
 import (
 	"fmt"
 	"go/ast"
+	"go/constant"
 	"go/token"
 	"go/types"
 	"os"
@@ -114,6 +115,15 @@ func LoadModel(repo string, buildFlags []string, env []string, config string) (*
 		}
 	}
 	m.reachMu = map[string]map[*ssa.Function][]*ssa.Function{}
+	if tp := m.ByPath[fullPkg("token")]; tp != nil {
+		for _, n := range tp.Types.Scope().Names() {
+			if c, ok := tp.Types.Scope().Lookup(n).(*types.Const); ok && strings.HasSuffix(c.Type().String(), "token.TokenType") {
+				if v, ok := constant.Int64Val(c.Val()); ok {
+					tokenConstNames[v] = n
+				}
+			}
+		}
+	}
 	return m, nil
 }
 
